@@ -4,7 +4,7 @@ use simcore::{Components, Obs, Scenario, Tier};
 
 use crate::cfg::{Cfg, ProbeKind, Step};
 use crate::world::{Report, StepOutcome, World, N_POOLS};
-use crate::{c02, c03, c04, c05, c06, c07, c08, c10, c12, c13, c14, gen};
+use crate::{c02, c03, c04, c05, c06, c07, c08, c10, c11, c12, c13, c14, gen};
 
 pub struct MarketHistory {
     pub focus: &'static str,
@@ -134,7 +134,7 @@ impl Scenario for MarketHistory {
                         ProbeKind::OpenClose { is_long, collateral_long, collateral, size_usd } => {
                             c10::probe_open_close(&w, *is_long, *collateral_long, collateral.0, size_usd.0, obs)
                         }
-                        ProbeKind::PnlDirection { .. } => {}
+                        ProbeKind::PnlDirection { pos, bump_bps, partial_bps } => c11::probe_pnl(&w, *pos, *bump_bps, *partial_bps, obs),
                     }
                     let name = match kind {
                         ProbeKind::LpRoundTrip { .. } => "lp_round_trip",
@@ -184,6 +184,7 @@ impl Scenario for MarketHistory {
                     c13::after_step(&w, &out, obs);
                     c12::after_step(&w, &out, obs);
                     c14::after_step(&w, &out, obs);
+                    c11::after_step(&w, &out, obs);
                     if let Report::Decrease(r) = &out.report {
                         if r.insolvent_close_step().is_some() {
                             obs.probe("insolvent_close");
